@@ -1720,6 +1720,23 @@ def load_corpus():
     return out
 
 
+def probe_cases():
+    """a fixed handful of sharp inputs that the oracle always tries (they run even when the models do not build):
+    x-range masks on data of size 1e-12 and 1e9 with bounds on and between the data values"""
+    out = []
+    st = {"error_bars": True, "residuals": False, "legend": False, "xrange": None, "title": "", "xname": "",
+          "yname": "", "xunit": "", "yunit": "", "entry": "class", "renders": 1, "settings_first": True}
+    for S in (2.0 ** -40, 2.0 ** 30):
+        for lo, hi in ((0.0, 1.0), (1.0, 2.0), (0.0, 2.0), (0.5, 2.5)):
+            d = {"kind": "data", "x": [0.0, 1.0, 2.0, 1.0], "y": [1.5, -2.0, 3.25, 0.5], "xerr": [0.25, 0.0, 0.5, 0.125],
+                 "yerr": [0.5, 0.25, 2.0 ** -30, 1.0], "name": None, "form": "arrays", "xrange": [lo, hi], "label": None,
+                 "fmt": None, "xname": "", "yname": "", "xunit": "", "yunit": ""}
+            sc = {"seed": 1, "objects": [d], "settings": dict(st), "kind": "probe"}
+            apply_scale(sc, S)
+            out.append({"script": sc, "order": None, "all_orders": False})
+    return out
+
+
 def search(ctx, suspects, budget):
     t0 = time.time()
     rng = ctx.rng
@@ -1735,7 +1752,7 @@ def search(ctx, suspects, budget):
                 seen.add(v.key)
                 out.append(v)
     n_known = len(out)
-    todo = [s["case"] for s in suspects if s.get("case")]
+    todo = [s["case"] for s in suspects if s.get("case")] + probe_cases()
     while len(out) - n_known < 3:
         if todo:
             case = todo.pop(0)
